@@ -156,6 +156,10 @@ func VP_C18_AnyCmd() {
 		if zzvp.Choose(2) == 1 {
 			argv = append(argv, "--global")
 		}
+		if zzvp.Choose(2) == 1 {
+			// identifiers shaped like parts of the file format
+			args = []string{[]string{"a=b\nc.k", "[x].k", "a.b=c", ".k", "s.", "a]b.k", "u\n[v].k"}[zzvp.Choose(7)], "v"}
+		}
 	case "status", "log", "rev-parse", "reflog", "hash-object":
 		readOnly = true
 	case "version-flag":
